@@ -95,6 +95,11 @@ pub fn items(quick: bool) -> Vec<Box<dyn Fn() -> Vec<Item> + Send + Sync>> {
         ("p. q(X) :- r(X), tp != X.", "q(X) :- r(X), tp != X. p."),
         ("p. q(X) :- r(X), X != hp, hp < X.", "q(X) :- r(X), hp < X, X != hp. p."),
         ("r. q(X) :- s(X), r != X, X = r.", "q(X) :- s(X), X = r, r != X. r."),
+        // a symbolic constant named like a predicate of arity >= 1 (under strong equivalence: like its h-/t-copy),
+        // with constants that sort between the name and name__s
+        ("q(hq). q(hq0). r :- hq < hq0.", "q(hq0). q(hq). r."),
+        ("q(tq). q(tq_). q(tqZ). s(X) :- q(X), X != tq.", "q(tqZ). q(tq_). q(tq). s(X) :- q(X), tq != X."),
+        ("q(X,Y) :- s(X), s(Y). s(hq). s(hq1).", "s(hq1). s(hq). q(X,Y) :- s(Y), s(X)."),
     ] {
         let (l, r) = (l.to_string(), r.to_string());
         v.push(Box::new(move || {
